@@ -271,3 +271,49 @@ Example route_examples :
   expected_route true (Some tx) [js] [] [js; tx] = (Some 415, None) /\
   all_lower [js; tx] = true.
 Proof. repeat split; reflexivity. Qed.
+
+(* ---- histories on one Context ---- *)
+Theorem gate_history_stateless default registered qs n q :
+  nth_error qs n = Some q -> nth_error (gate_history default registered qs) n = Some (gate_req default registered q).
+Proof. intros H. unfold gate_history. now apply map_nth_error. Qed.
+
+Theorem gate_history_prefix_irrelevant default registered pre pre' q :
+  nth_error (gate_history default registered (pre ++ [q])) (length pre) =
+  nth_error (gate_history default registered (pre' ++ [q])) (length pre').
+Proof.
+  unfold gate_history. rewrite !map_app.
+  rewrite !nth_error_app2 by (rewrite map_length; lia). rewrite !map_length, !Nat.sub_diag. reflexivity.
+Qed.
+
+Definition greq_ok (q : greq) : Prop :=
+  gq_reparse q = gq_parse q /\ gq_parse q <> Some [] /\ all_lower (gq_declared q) = true.
+
+Theorem gate_req_expected default registered q :
+  greq_ok q -> lower default = default ->
+  outcome (gate_req default registered q) = expected_req default registered q.
+Proof.
+  intros [Hr [Hne Hl]] Hd. unfold gate_req, expected_req. rewrite Hr.
+  destruct (gq_typed q); [now apply route_typed_expected | now apply route_untyped_expected].
+Qed.
+
+(* every answer of a history is the specification of the single request, over the list of the operation it addresses *)
+Theorem gate_history_expected default registered qs :
+  lower default = default -> Forall greq_ok qs ->
+  map outcome (gate_history default registered qs) = map (expected_req default registered) qs.
+Proof.
+  intros Hd H. unfold gate_history. rewrite map_map. apply map_ext_in. intros q Hq.
+  apply gate_req_expected; [|exact Hd]. rewrite Forall_forall in H. now apply H.
+Qed.
+
+(* the entry points agree inside a history as they do on single requests *)
+Theorem gate_history_entry_points_agree default registered qs qs' :
+  lower default = default -> Forall greq_ok qs -> Forall greq_ok qs' ->
+  map (fun q => (gq_declared q, gq_hasbody q, gq_parse q)) qs = map (fun q => (gq_declared q, gq_hasbody q, gq_parse q)) qs' ->
+  map outcome (gate_history default registered qs) = map outcome (gate_history default registered qs').
+Proof.
+  intros Hd H H' E. rewrite !gate_history_expected by assumption.
+  revert qs' H' E. induction qs as [|q r IH]; intros [|q' r'] H' E; try discriminate; [reflexivity|].
+  simpl in E. inversion E as [[E1 E2 E3 E4]]. cbn [map]. f_equal.
+  - unfold expected_req. now rewrite E1, E2, E3.
+  - inversion H; inversion H'; subst. now apply IH.
+Qed.
